@@ -18,7 +18,8 @@ RULE = ('Requester: a real client with honor_lease=True and request_queue_size i
         'order - the wire order of request frames equals the model\'s release order; every stream id carries at most one '
         'request frame. Granter: a real server with a lease publisher against a raw client that set the lease flag; the '
         'LEASE frames on its wire are, in order, exactly the published leases with number_of_requests == n and '
-        'time_to_live == round(ttl in ms), also when the publisher emits the same lease object again. Reconnecting requester: the C17 reconnect histories with a lease-honouring client '
+        'time_to_live == round(ttl in ms), also when the publisher emits the same lease object again. Answer and LEASE in one read: 2-5 requests are retained, the answer to an earlier request and a LEASE arrive back to back, '
+        'the application issues 1-3 further requests from the answer\'s callback: the wire order is the order of issue. Reconnecting requester: the C17 reconnect histories with a lease-honouring client '
         '(leases left over, used up, or requests waiting for one when the connection ends): on every connection no request '
         'frame leaves before that connection\'s own first LEASE arrived, and never more than it grants. Non-trivial = >= 2 leases of which one expired or was exhausted with requests '
         'still queued; distinct = timeline hash.')
@@ -281,7 +282,65 @@ def judge_reconnect(wrapped):
 info = {}
 
 
+@st.composite
+def overtake_cases(draw):
+    """Requests retained for want of a lease; then the answer to an earlier request and the next LEASE arrive in one read and
+    the application reacts to the answer by issuing further requests: they join the end of the line."""
+    return {'overtake': True, 'retained': draw(st.lists(st.sampled_from(KINDS), min_size=2, max_size=5)),
+            'late': draw(st.lists(st.sampled_from(KINDS), min_size=1, max_size=3)),
+            'grant': draw(st.sampled_from([2, 3, 5, 100])), 'msg': draw(st.booleans()),
+            'gap': draw(st.sampled_from([0, 0, 1]))}
+
+
+def _req_spec(k):
+    spec = {'k': k, 'side': 'c', 'req': [5, 2]}
+    if k == 'rr':
+        spec['resp'] = {'mode': 'manual', 'p': [3, 0]}
+    if k in ('st', 'ch'):
+        spec['src'] = {'kind': 'manual', 'els': [], 'end': 'sep'}
+        spec['sub'] = {'n0': 5, 'refill': 0}
+    if k == 'ch':
+        spec['rsrc'] = None
+        spec['rsub'] = None
+    return spec
+
+
+def judge_overtake(case):
+    nret, nlate = len(case['retained']), len(case['late'])
+    first = _req_spec('rr')
+    first['then_start'] = list(range(1 + nret, 1 + nret + nlate))
+    inter = [first] + [_req_spec(k) for k in case['retained']] + [_req_spec(k) for k in case['late']]
+    ops = [['tick', 3], ['settle'], ['rawframe', {'type': 'LEASE', 'sid': 0, 'ttl': 100000, 'count': 1, 'metadata': None}], ['settle'],
+           ['start'], ['settle']]
+    for _ in case['retained']:
+        ops += [['start'], ['settle']]
+    # the answer and the LEASE, written back to back (one read on a byte stream, two queued messages otherwise)
+    ops += [['rawf', 0, 'next_complete', [3, 0]]]
+    if case['gap']:
+        ops.append(['tick', case['gap']])
+    ops += [['rawframe', {'type': 'LEASE', 'sid': 0, 'ttl': 100000, 'count': case['grant'], 'metadata': None}], ['tick', 6], ['settle']]
+    prog = {'cfg': {'msg': case['msg'], 'frag': [None, None], 'rbuf': [1024, 1024], 'raw': 's', 'lease': {'queue': 0}},
+            'inter': inter, 'ops': ops, 'heal': False}
+    tr = run_program(prog)
+    out = []
+    sid_to_uid = {tr.scn.st[u]['sid']: u for u in tr.scn.started if tr.scn.st[u]['sid']}
+    sent = [sid_to_uid.get(e['f']['sid']) for e in tr.world.wire.get('c', []) if e['f']['type'] in monitors.REQ_TYPES]
+    order = [0] + list(range(1, 1 + nret + nlate))
+    want = order[:1 + min(case['grant'], nret + nlate)]
+    if sent != want:
+        kind = 'reordered' if sorted(x for x in sent if x is not None) == sorted(want) else ('lost' if len(sent) < len(want) else 'extra')
+        out.append(viol('release_order_differs_from_model', 'C14:release_%s:issued_during_lease_handling' % kind, got=sent[:10], want=want[:10],
+                        grant=case['grant']))
+    for err in tr.loop_errors:
+        out.append(viol('unhandled_exception', 'C14:loop_error:%s' % err.get('type'), **err))
+    return out, True, ['role=requester', 'part=answer_and_lease_in_one_read', 'retained=%d' % nret]
+
+
 def prop(case):
+    if 'overtake' in case:
+        vs, nt, classes = judge_overtake(case)
+        info['nt'], info['classes'] = nt, classes
+        return vs
     if 'reconnect' in case:
         vs, nt, classes = judge_reconnect(case)
         info['nt'], info['classes'] = nt, classes
@@ -317,7 +376,7 @@ def shard(tier, seed, n, which):
             for v in common.judge(stats, known, c, vs):
                 stats.violations.append((v, c))
         return stats
-    strat = {'requester': timelines, 'granter': granter_cases, 'reconnect': reconnect_cases}[which]()
+    strat = {'requester': timelines, 'granter': granter_cases, 'reconnect': reconnect_cases, 'overtake': overtake_cases}[which]()
     common.hyp_search(stats, known, strat, prop, n, seed, classify=classify, shrink=True)
     return stats
 
@@ -330,6 +389,7 @@ def run(tier, seed):
     for i, s in enumerate(seeds):
         jobs.append(dict(tier=tier, seed=s, n=total // len(seeds), which='granter' if i % 4 == 3 else 'requester'))
     jobs += [dict(tier=tier, seed=s + 5, n=(320 if tier == 'quick' else 8000) // 4, which='reconnect') for s in seeds[:4]]
+    jobs += [dict(tier=tier, seed=s + 9, n=(240 if tier == 'quick' else 6000) // 4, which='overtake') for s in seeds[:4]]
     stats = common.run_shards(__name__, 'shard', jobs)
     return common.finish(PID, tier, seed, LEVEL, RULE, stats, t0, ASSUMPTIONS)
 
